@@ -175,7 +175,7 @@ def checkNodes (prop : String) (c : Cfg) (ws : List Watcher) (top : Bool) : Nat 
           let got := directCalls ch false
           if got.map (·.1) != exp.map (·.cb) then
             some s!"{kind} p{p} {old}->{new}: watchers invoked {got.map (·.1)}, expected exactly once each, in order, {exp.map (·.cb)}"
-          else if (got.zip exp).any (fun (g, w) => g.2.1 != [typed tr w ev]) then
+          else if (got.zip exp).any (fun (g, w) => g.2.1 != shown w [typed tr w ev]) then
             some s!"{kind} p{p} {old}->{new}: event payload differs from the true old/new/type"
           else match got.head? with
             | some (_, _, snap) => if kind == "set" && snap.getD p 0 != new then some s!"set p{p}: first watcher ran before the object showed the new value" else none
@@ -190,7 +190,7 @@ def checkNodes (prop : String) (c : Cfg) (ws : List Watcher) (top : Bool) : Nat 
           | none =>
             if kind == "trigger" then
               let k := ((records c 100000 false ch).flatMap (·.regs)).eraseDups.length
-              if (calls.take k).any (fun cl => cl.2.1.any (fun e => e.type != .triggered ||
+              if (calls.take k).any (fun cl => cl.2.1.any (fun e => (e.type != .triggered && e.type != .kw) ||
                     (e.old != e.new && !c.isEvent e.name))) then
                 some "trigger: an event is not typed 'triggered' with old = new (Event parameters: the transient True)"
               else none
